@@ -19,7 +19,8 @@ class NoTranslation(Exception):
 
 
 class Translator:
-    def __init__(self):
+    def __init__(self, width=64):
+        self.W = width
         self.cache = {}
         self.vars = {}          # Int const name -> BV const
         self.side = []          # range side conditions that keep the BV reading equal to the Int reading
@@ -36,18 +37,19 @@ class Translator:
     def _bv(self, e):
         if z3.is_int_value(e):
             v = e.as_long()
-            if not -(1 << 62) < v < (1 << 62):
-                raise NoTranslation("constant out of range")
-            return z3.BitVecVal(v, W)
+            if not -(1 << (self.W - 2)) < v < (1 << (self.W - 2)) and not (self.W == 32 and -(1 << 31) <= v < (1 << 31)):
+                raise NoTranslation("constant out of range for width %d" % self.W)
+            return z3.BitVecVal(v, self.W)
         d = e.decl().kind()
         ch = e.children()
         if d == z3.Z3_OP_UNINTERPRETED and not ch:
             nm = e.decl().name()
             if nm not in self.vars:
-                v = z3.BitVec("bv!" + nm, W)
+                v = z3.BitVec("bv!" + nm, self.W)
                 self.vars[nm] = (e, v)
-                # every integer variable of the encodings is a machine integer or a product/quotient of two: |v| < 2^62
-                self.side.append(z3.And(v > -(1 << 62), v < (1 << 62)))
+                # every integer variable of the encodings is a machine integer or a product/quotient of two
+                if self.W > 32:
+                    self.side.append(z3.And(v > -(1 << (self.W - 2)), v < (1 << (self.W - 2))))
             return self.vars[nm][1]
         if d == z3.Z3_OP_ADD:
             r = self.bv(ch[0])
@@ -81,9 +83,9 @@ class Translator:
         if d == z3.Z3_OP_BV2INT:
             x = ch[0]
             n = x.size()
-            if n >= W:
+            if n >= self.W:
                 raise NoTranslation("bv2int of a wide vector")
-            return z3.ZeroExt(W - n, x)
+            return z3.ZeroExt(self.W - n, x)
         if d == z3.Z3_OP_TO_INT or d == z3.Z3_OP_TO_REAL:
             raise NoTranslation("real arithmetic")
         raise NoTranslation("integer operator %s" % e.decl().name())
@@ -150,7 +152,12 @@ class Translator:
             return e
         if d == z3.Z3_OP_INT2BV:
             n = e.sort().size()
-            return z3.Extract(n - 1, 0, self.bv(ch[0]))
+            x = self.bv(ch[0])
+            if n == self.W:
+                return x
+            if n > self.W:
+                return z3.SignExt(n - self.W, x)
+            return z3.Extract(n - 1, 0, x)
         new = []
         for c in ch:
             if z3.is_int(c):
@@ -175,22 +182,45 @@ def find_counterexample(assertions, int_inputs, timeout_ms=60000, seed=0):
     """assertions: the z3 Bool terms of the undecided query (path condition, pre, negated post).
     Returns {name: int} for the Int constants of the query (every one, not only the inputs) together with a z3 model of the
     ORIGINAL query obtained by fixing those integers - or None."""
-    tr = Translator()
-    try:
-        goal = [tr.bool(a) for a in assertions]
-    except NoTranslation as e:
-        return None, "no bit-vector re-encoding: %s" % e
-    s = z3.SolverFor("QF_FPBV") if hasattr(z3, "SolverFor") else z3.Solver()
-    s.set("timeout", timeout_ms)
-    try:
-        s.set("random_seed", seed)
-    except Exception:
-        pass
-    s.add(*goal)
-    s.add(*tr.side)
-    r = s.check()
-    if r != z3.sat:
-        return None, "bit-vector search: %s" % r
+    # narrow vectors first: a model found with 32-bit arithmetic is only a candidate (products may wrap), but candidates are
+    # re-checked in the integer encoding below, and the narrow problem is far easier for the SAT back end
+    t_end = __import__("time").time() + timeout_ms / 1000.0
+    m = None
+    why = []
+    for width, share in ((32, 0.34), (48, 0.5), (64, 1.0)):
+        left = t_end - __import__("time").time()
+        if left <= 1:
+            break
+        tr = Translator(width)
+        try:
+            goal = [tr.bool(a) for a in assertions]
+        except NoTranslation as e:
+            why.append("width %d: %s" % (width, e))
+            continue
+        s = z3.SolverFor("QF_FPBV") if hasattr(z3, "SolverFor") else z3.Solver()
+        s.set("timeout", int(1000 * left * share))
+        try:
+            s.set("random_seed", seed)
+        except Exception:
+            pass
+        s.add(*goal)
+        s.add(*tr.side)
+        r = s.check()
+        why.append("width %d: %s" % (width, r))
+        if r != z3.sat:
+            continue
+        cand = s.model()
+        fixed0 = [iv == cand.eval(bvv, model_completion=True).as_signed_long() for nm, (iv, bvv) in tr.vars.items()]
+        s0 = z3.Solver()
+        s0.set("timeout", 20000)
+        s0.add(*assertions)
+        s0.add(*fixed0)
+        if s0.check() == z3.sat:
+            m = cand
+            break
+        why.append("width %d: candidate wraps" % width)
+    if m is None:
+        return None, "bit-vector search: " + "; ".join(why)
     m = s.model()
     fixed = []
     for nm, (iv, bvv) in tr.vars.items():
